@@ -451,6 +451,19 @@ def write_replay(res, o):
     return path
 
 
+def pick_samples(obls):
+    """a few obligations of every engine, with their contract text (clauses first, then safety/lemma obligations)"""
+    out = []
+    by = {}
+    for o in obls:
+        by.setdefault(o["engine"], []).append(o)
+    for eng, lst in by.items():
+        lst = sorted(lst, key=lambda o: (0 if o.get("text") else 1))
+        for o in lst[:6]:
+            out.append({"obligation": o["id"], "engine": o["engine"], "contract": o.get("text", ""), "status": o["status"], "bound": o.get("bound")})
+    return out
+
+
 def write_evidence(res, cfg, rc):
     pid = res.pid
     n = len(res.obligations)
@@ -466,7 +479,7 @@ def write_evidence(res, cfg, rc):
         "checker_cmd": res.log.get("verus_cmd", "") + (" ; " + res.log.get("kani_cmd", "") if res.log.get("kani_cmd") else ""),
         "trusted_base": sorted(set(res.trusted + cfg.get("trusted_base", []))) + prelude_inventory(),
         "functions_under_contract": res.functions,
-        "samples": [{"obligation": o["id"], "engine": o["engine"], "contract": o.get("text", ""), "status": o["status"]} for o in res.obligations[:12]],
+        "samples": pick_samples(res.obligations),
         "by_engine": {e: {"obligations": sum(1 for o in res.obligations if o["engine"] == e),
                           "discharged": sum(1 for o in res.obligations if o["engine"] == e and o["status"] == "discharged")}
                       for e in sorted(set(o["engine"] for o in res.obligations))},
